@@ -23,6 +23,8 @@ class Verifier(Exec):
         self.specfun_axioms = set()
         self.pending_specfun = []
         self.unfolding = 0
+        self.sf_heaps = {}
+        self.heap_record = None
         self.conc_done = set()
         self.inline_returns = None
         self.live_pred = {}
@@ -201,7 +203,8 @@ class Verifier(Exec):
                 if in_struct and self.elem_key(v.elem) == 'uint8':
                     alt = select(self.heap_get(st, 'HS:int32', arr(ARR_II)), v.arr)
                 return SeqV(select(h, v.arr), v.off, v.len, v.elem, alt)
-            raise Unsupported('snapshot of slice of aggregates')
+            # slice of aggregates: stays address-based; the element heaps read become explicit arguments
+            return SliceV(v.arr, v.off, v.len, v.len, v.elem)
         if isinstance(v, StrV):
             h = self.heap_get(st, 'HS:uint8', arr(ARR_II))
             if v.lit is not None:
@@ -227,6 +230,8 @@ class Verifier(Exec):
             out.extend([v.a, v.off, v.len])
             if v.alt is not None:
                 out.append(v.alt)
+        elif isinstance(v, SliceV):
+            out.extend([v.arr, v.off, v.len])
         elif isinstance(v, SnapV):
             for f in self.struct_fields(v.tid):
                 self.flatten(v.f[f['name']], out)
@@ -250,6 +255,9 @@ class Verifier(Exec):
             return const(prefix, INT)
         if k == 'slice':
             e = self.U(tid)['elem']
+            if not self.is_scalar(e):
+                n_ = const(prefix + '.n', INT)
+                return SliceV(const(prefix + '.arr', INT), const(prefix + '.o', INT), n_, n_, e)
             alt = const(prefix + '.r', ARR_II) if (in_struct and self.elem_key(e) == 'uint8') else None
             return SeqV(const(prefix + '.a', arr(self.sort_of(e))), const(prefix + '.o', INT), const(prefix + '.n', INT), e, alt)
         if k == 'struct':
@@ -299,6 +307,9 @@ class Verifier(Exec):
         flat = []
         for s_ in snaps:
             self.flatten(s_, flat)
+        # heaps the body reads through pointers become explicit extra arguments
+        for hn in self.specfun_heaps(sf, ev.st):
+            flat.append(self.heap_get(ev.st, hn, None))
         rsort = BOOL if sf.ret == 'bool' else INT
         fname = 'sf:' + sf.name
         if sf.body is not None and sf.decreases is not None and self.expand_small_quants:
@@ -311,9 +322,13 @@ class Verifier(Exec):
                     return self.sf_memo[key]
                 sub_ = SpecEval(self, ev.st, env, None, 'spec func ' + sf.name)
                 body = sub_.ev(sf.expr)
+                if isinstance(body, (PtrV, Opaque)):
+                    body = self.scalar_term(body)
                 body = self.ctx.name('sf_' + sf.name, body)
                 self.sf_memo[key] = body
                 return body
+        if self.heap_record is not None:
+            return app(fname + '$probe', flat, rsort)      # probe evaluation: result is discarded
         if fname not in self.ctx.declared:
             self.ctx.declare_fun(fname, [t.sort for t in flat], rsort)
         r = app(fname, flat, rsort)
@@ -326,10 +341,46 @@ class Verifier(Exec):
                 body = sub_.ev(sf.expr)
             finally:
                 self.unfolding -= 1
+            if isinstance(body, (PtrV, Opaque)):
+                body = self.scalar_term(body)
             if not isinstance(body, T):
                 raise SpecError('spec func %s must return a scalar' % sf.name)
             self.ctx.assume(eq(r, body))
         return r
+
+    def specfun_heaps(self, sf, st):
+        """names of the heaps a spec function's body reads (through pointer arguments), found by a probe evaluation"""
+        if sf.body is None:
+            return []
+        hs = self.sf_heaps.get(sf.name)
+        if hs is not None:
+            return hs
+        self.sf_heaps[sf.name] = []          # recursion guard
+        formals = [self.formal('probe$%s' % p[0], self.parse_type(p[1])) for p in sf.params]
+        env = dict((p[0], f) for p, f in zip(sf.params, formals))
+        rec = set()
+        saved = self.heap_record
+        self.heap_record = rec
+        self.unfolding += 1
+        na, nd, nc = len(self.ctx.asserts), len(self.ctx.decls), dict(self.ctx.counter)
+        saved_assumptions = set(self.ctx.assumptions)
+        try:
+            SpecEval(self, st, env, None, 'probe of ' + sf.name).ev(sf.expr)
+        finally:
+            self.unfolding -= 1
+            self.heap_record = saved
+            # facts stated during the probe mention the probe's formals: drop them (and forget that the
+            # axioms among them were emitted, so that they are emitted again when really needed)
+            del self.ctx.asserts[na:]
+            self.ctx.assumptions = saved_assumptions
+        hs = sorted(n for n in rec if not n.startswith(('MAP', 'INIT')) and not self.is_global_heap(n))
+        self.sf_heaps[sf.name] = hs
+        if hs:
+            self.trusted.discard(None)
+        return hs
+
+    def is_global_heap(self, n):
+        return False
 
     def has_bound(self, terms):
         seen = set()
@@ -448,7 +499,8 @@ class Verifier(Exec):
                     hi = add(base.off, ev.term(parse_expr(m.group(3))) if m.group(3).strip() else base.len)
                 ek = self.elem_key(base.elem) if isinstance(base, SliceV) else 'uint8'
                 if isinstance(base, SliceV) and not self.is_scalar(base.elem):
-                    raise SpecError('modifies %s: slice of aggregates not supported as region' % loc)
+                    regs.append(('objs', base.elem, base.arr, lo, hi))
+                    continue
                 regs.append(('initbits' if initonly else 'slice', ek, base.arr, lo, hi))
                 continue
             # object or object field:  *p   p.f   *p.f
@@ -601,6 +653,11 @@ class Verifier(Exec):
             if kd == 'pointer' and self.U(dst)['elem'] != x.elem and x.addr is not None or (kd == 'pointer' and x.elem and self.U(dst)['elem'] != x.elem):
                 # unsafe reinterpretation of a slice header ([]byte <-> []rune): trusted idiom
                 newelem = self.U(dst)['elem']
+                if self.prog.basic_name(newelem) == 'uint64' and x.addr is not None and x.addr[0] == 'idx' and x.addr[2].is_int() and x.addr[2].val == 0 \
+                        and self.prog.basic_name(x.addr[3]) == 'uint16':
+                    # trusted idiom (result_x86.go): little-endian uint64 view of a [4]uint16
+                    self.trusted.add('unsafe little-endian uint64 load of [4]uint16 (result_x86.go; amd64/386 are little-endian)')
+                    return PtrV(None, newelem, ('cast64', x.addr[1]))
                 if self.kind(newelem) == 'slice' and x.elem and self.kind(x.elem) == 'slice':
                     self.trusted.add('unsafe slice-header reinterpretation %s -> %s' % (self.prog.short(x.elem), self.prog.short(newelem)))
                     base = x.addr if x.addr is not None else ('obj', x.elem, x.term)
@@ -680,6 +737,12 @@ class Verifier(Exec):
         return SliceV(a, ZERO, x.len, x.len, e)
 
     def load(self, st, a):
+        if a[0] == 'cast64':
+            av = Exec.load(self, st, a[1])
+            if not isinstance(av, ArrV) or len(av.elems) != 4:
+                raise Unsupported('cast64 of %r' % (av,))
+            e0, e1, e2, e3 = av.elems
+            return add(e0, mul(I(1 << 16), e1), mul(I(1 << 32), e2), mul(I(1 << 48), e3))
         if a[0] == 'cast':
             v = Exec.load(self, st, a[1])
             if isinstance(v, SliceV):
@@ -1163,7 +1226,43 @@ class Verifier(Exec):
         return SliceV(self.ctx.name('app.arr', ite(fits, s.arr, na)), self.ctx.name('app.off', ite(fits, s.off, ZERO)), n, self.ctx.name('app.cap', ite(fits, s.cap, newcap)), e)
 
     def do_append_agg(self, st, ins, s, t, n, fits):
-        raise Unsupported('append of aggregate elements')
+        """append for slices whose elements are structs / slices / arrays: the appended (and, on reallocation, the
+        old) elements are copied leaf by leaf; modelled as a havoc of the destination elements plus equalities"""
+        e = s.elem
+        pre = st.copy()
+        na = self.new_addr(st, 'app')
+        newcap = self.ctx.fresh('appcap', INT)
+        self.ctx.assume(and_(le(n, newcap), le(newcap, I(MAXLEN))))
+        darr = self.ctx.name('app.arr', ite(fits, s.arr, na))
+        doff = self.ctx.name('app.off', ite(fits, s.off, ZERO))
+        res = SliceV(darr, doff, n, self.ctx.name('app.cap', ite(fits, s.cap, newcap)), e)
+        # destination elements written: [doff + (fits ? s.len : 0), doff + n)
+        lo = self.ctx.name('app.lo', add(doff, ite(fits, s.len, ZERO)))
+        reg = ('objs', e, darr, lo, add(doff, n))
+        if (self.writable is not None or any(w is not None for w in self.loop_writes)) and not (t.len.is_int() and t.len.val == 0):
+            st2 = st.copy()
+            kk = self.ctx.fresh('appk', INT)
+            st2.pc = and_(st.pc, fits, le(add(s.off, s.len), kk), lt(kk, add(s.off, n)))
+            self.frame_check_obj(st2, self.elemaddr(s.arr, kk), e)
+        self.havoc_regions(st, [reg], 'app')
+        ev = SpecEval(self, st, {}, None, 'append')
+        # appended elements
+        nq = self.ctx.counter.get('q:ap', 0)
+        self.ctx.counter['q:ap'] = nq + 1
+        k = const('ap?%d' % nq, INT)
+        newv = self.obj_load(st, e, self.elemaddr(darr, add(doff, s.len, k)))
+        oldv = self.obj_load(pre, e, self.elemaddr(t.arr, add(t.off, k)))
+        self.ctx.assume(forall([k], implies(and_(le(ZERO, k), lt(k, t.len)), ev.deep_eq(newv, oldv)), [self.elemaddr(darr, add(doff, s.len, k))]))
+        # kept elements when reallocated
+        newv2 = self.obj_load(st, e, self.elemaddr(na, k))
+        oldv2 = self.obj_load(pre, e, self.elemaddr(s.arr, add(s.off, k)))
+        self.ctx.assume(implies(not_(fits), forall([k], implies(and_(le(ZERO, k), lt(k, s.len)), ev.deep_eq(newv2, oldv2)), [self.elemaddr(na, k)])))
+        if t.len.is_int() and t.len.val == 1:
+            # the common single-element append: state the fact without a quantifier as well
+            nv = self.obj_load(st, e, self.elemaddr(darr, add(doff, s.len)))
+            ov = self.obj_load(pre, e, self.elemaddr(t.arr, t.off))
+            self.ctx.assume(ev.deep_eq(nv, ov))
+        return res
 
     def do_copy(self, st, ins, args):
         d, s = args
@@ -1666,7 +1765,21 @@ class Verifier(Exec):
                         cells.add(ins['name'])
                     else:
                         heaps = True
-                elif op in ('Call', 'MapUpdate', 'Go', 'Defer', 'Send', 'MakeSlice', 'MakeMap', 'Convert'):
+                elif op == 'Call':
+                    c_ = ins['call']
+                    val_ = c_.get('value') or {}
+                    if val_.get('k') == 'builtin':
+                        if val_.get('n') in ('append', 'copy', 'delete'):
+                            heaps = True
+                        continue
+                    callee = c_.get('static')
+                    sp_ = self.find_spec(callee) if callee else None
+                    if sp_ is None or sp_.modifies:
+                        heaps = True
+                elif op == 'Convert':
+                    if self.kind(ins['type']) == 'slice' or self.is_string(ins['type']):
+                        heaps = True
+                elif op in ('MapUpdate', 'Go', 'Defer', 'Send', 'MakeSlice', 'MakeMap', 'MakeChan', 'Select'):
                     heaps = True
         return cells, heaps
 
@@ -1987,7 +2100,7 @@ class LemmaVerifier(Verifier):
 
     def assume_formal_valid(self, v):
         c = self.ctx
-        if isinstance(v, SeqV):
+        if isinstance(v, (SeqV, SliceV)):
             c.assume(and_(le(ZERO, v.off), le(ZERO, v.len)))
         elif isinstance(v, SnapV):
             for x in v.f.values():
